@@ -132,11 +132,15 @@ def strip_coq_comments(text: str) -> str:
 def integrity_scan():
     """No Admitted/admit/Axiom/Parameter/... anywhere; Variable/Hypothesis only inside sections."""
     bad = []
+    # the development is exactly the files _CoqProject lists (make builds nothing else, so nothing else can be imported)
+    listed = {l.strip() for l in open(os.path.join(COQ, "_CoqProject")) if l.strip().endswith(".v")}
     for root, _, files in os.walk(COQ):
         for f in files:
             if not f.endswith(".v"):
                 continue
             p = os.path.join(root, f)
+            if os.path.relpath(p, COQ) not in listed:
+                continue
             text = strip_coq_comments(open(p).read())
             # string literals may mention these words; drop them
             text_ns = re.sub(r'"(?:[^"]|"")*"', '""', text)
